@@ -24,6 +24,8 @@ type world struct {
 	// [as][version]: version 0 = original, 1.. = re-issued (same subject, new key and serial)
 	sens, reg, root [nAS][]*pc
 	noIASens, noIAReg   *pc
+	noIATight           [2]*pc // sens, reg voters WITHOUT ISD-AS, valid exactly [sec(0), sec(5000)]
+	noIAShort           [2]*pc // sens, reg voters WITHOUT ISD-AS, valid [sec(100), sec(4000)] only
 	otherISD            [3]*pc // sens, reg, root of ISD 2
 	ca, as              *pc
 	badBoth, badSigUse  *pc
@@ -56,6 +58,14 @@ func newWorld(r *vlib.Rand) *world {
 	}
 	w.noIASens = w.add(mkCert(wide(kSens, "", "sensitive without ia")))
 	w.noIAReg = w.add(mkCert(wide(kReg, "", "regular without ia")))
+	for k, kk := range []kind{kSens, kReg} {
+		t := wide(kk, "", "tight voter without ia")
+		t.nb, t.na = sec(0), sec(5000)
+		w.noIATight[k] = w.add(mkCert(t))
+		t = wide(kk, "", "short-lived voter without ia")
+		t.nb, t.na = sec(100), sec(4000)
+		w.noIAShort[k] = w.add(mkCert(t))
+	}
 	w.otherISD[0] = w.add(mkCert(wide(kSens, iaStr(2, 0), "sensitive")))
 	w.otherISD[1] = w.add(mkCert(wide(kReg, iaStr(2, 0), "regular")))
 	w.otherISD[2] = w.add(mkCert(wide(kRoot, iaStr(2, 0), "root")))
@@ -135,6 +145,15 @@ func (w *world) validBase() *payload {
 		if k == 0 {
 			ns++
 		} else if k == 1 {
+			nr++
+		}
+	}
+	if w.r.Chance(12) { // a voter without ISD-AS whose validity covers the TRC's exactly
+		k := w.r.Intn(2)
+		certs = append(certs, w.noIATight[k].Cert)
+		if k == 0 {
+			ns++
+		} else {
 			nr++
 		}
 	}
